@@ -280,10 +280,11 @@ example : fromIdx [mkRemove 1 1 1] ≠ ixRange 2 := by decide
 /-! ### whole-document projections on a concrete 3-level pair (mapping → list → string)
 
   `{"a":[1,2,"xy"],"b":2,"c":3}` → `{"a":[2,"xzy",3],"c":3,"d":2}` without automatic key matching; the solver pairs
-  a↦a and b↦d.  `pScript` is what `#eval edits {amk := false} pOrc [] [] pF pT` prints (MultiSetEdit: identity match of
-  c:3, KeyValuePairEdit a/a with an EditDistance over the lists and a StringEdit "xy"→"xzy" inside, KeyValuePairEdit
-  b/d); `edits` itself is not kernel-evaluable (see above), so the instance is given for the literal script: it
-  satisfies the hypothesis of `project_of_accounts`, and both projections are computed by `rfl`. -/
+  a↦a and b↦d.  `pScript` IS the model's script for this pair (`pScript_is_model_output`, proved by unfolding
+  `edits` level by level: the kernel cannot evaluate the well-founded recursion directly): MultiSetEdit with the
+  identity match of c:3, KeyValuePairEdit a/a with an EditDistance over the lists and a StringEdit "xy"→"xzy" inside,
+  KeyValuePairEdit b/d.  It satisfies the hypothesis of `project_of_accounts`, and both projections are computed by
+  `rfl`. -/
 
 def pF : Tree := .dict [([97], .list [.leaf (.int 1), .leaf (.int 2), .leaf (.str [120, 121])]), ([98], .leaf (.int 2)),
   ([99], .leaf (.int 3))]
@@ -304,6 +305,66 @@ def pScript : Script :=
     .mk .kvp (.at 1) (.at 2) 1 [.mk .match_ (.at 0) (.at 0) 1 [], .mk .match_ (.at 1) (.at 1) 0 []]]
 
 example : pF.KeysDistinct ∧ pT.KeysDistinct := by decide
+
+section
+set_option linter.unusedSimpArgs false
+open GtModel.EditMatrix in
+/-- the list level: `[1, 2, "xy"]` → `[2, "xzy", 3]` (remove 1, match 2, StringEdit "xy"→"xzy", insert 3) -/
+theorem pList_script (fp tp : List Nat) (orc : Oracle) :
+    edits {amk := false} orc fp tp (.list [.leaf (.int 1), .leaf (.int 2), .leaf (.str [120, 121])])
+        (.list [.leaf (.int 2), .leaf (.str [120, 122, 121]), .leaf (.int 3)]) =
+      .mk .ed .none .none 3 [
+        .mk .remove (.at 0) .none 1 [],
+        .mk .match_ (.at 1) (.at 0) 0 [],
+        .mk .str (.at 2) (.at 1) 1 [
+          .mk .match_ (.at 0) (.at 0) 0 [], .mk .insert (.at 1) .none 1 [], .mk .match_ (.at 1) (.at 2) 0 []],
+        .mk .insert (.at 2) .none 1 []] := by
+  have hb : ∀ a b : Tree, (a == b) = a.eq b := fun _ _ => rfl
+  rw [edits_list_list]
+  have h1 : eqL [.leaf (.int 1), .leaf (.int 2), .leaf (.str [120, 121])]
+      [.leaf (.int 2), .leaf (.str [120, 122, 121]), .leaf (.int 3)] = false := by simp [eqL, Tree.eq, Scalar.eq]
+  have h2 : listTbl {amk := false} orc fp tp [.leaf (.int 1), .leaf (.int 2), .leaf (.str [120, 121])]
+      [.leaf (.int 2), .leaf (.str [120, 122, 121]), .leaf (.int 3)] =
+      [[leafEdits (.int 1) (.leaf (.int 2)), leafEdits (.int 1) (.leaf (.str [120, 122, 121])), leafEdits (.int 1) (.leaf (.int 3))],
+       [leafEdits (.int 2) (.leaf (.int 2)), leafEdits (.int 2) (.leaf (.str [120, 122, 121])), leafEdits (.int 2) (.leaf (.int 3))],
+       [leafEdits (.str [120, 121]) (.leaf (.int 2)), leafEdits (.str [120, 121]) (.leaf (.str [120, 122, 121])),
+        leafEdits (.str [120, 121]) (.leaf (.int 3))]] := by
+    simp [listTbl, List.zipIdx, edits_leaf]
+  have h3 : trimLens [Tree.leaf (.int 1), .leaf (.int 2), .leaf (.str [120, 121])]
+      [Tree.leaf (.int 2), .leaf (.str [120, 122, 121]), .leaf (.int 3)] = (0, 0) := by
+    simp [trimLens, sharedPrefixLen, hb, Tree.eq, Scalar.eq]
+  rw [h1, h2]
+  simp only [Bool.false_eq_true, if_false]
+  rw [show (!({amk := false} : Opts).ale || (([Tree.leaf (.int 1), .leaf (.int 2), .leaf (.str [120, 121])] : List Tree).length
+      == ([Tree.leaf (.int 2), .leaf (.str [120, 122, 121]), .leaf (.int 3)] : List Tree).length &&
+      (!({amk := false} : Opts).alesl || ([Tree.leaf (.int 1), .leaf (.int 2), .leaf (.str [120, 121])] : List Tree).length == 1)))
+      = false by decide]
+  simp only [Bool.false_eq_true, if_false]
+  rw [show (if allLeaves [Tree.leaf (.int 1), .leaf (.int 2), .leaf (.str [120, 121])] &&
+      allLeaves [Tree.leaf (.int 2), .leaf (.str [120, 122, 121]), .leaf (.int 3)] &&
+      allPositive [Tree.leaf (.int 1), .leaf (.int 2), .leaf (.str [120, 121])] &&
+      allPositive [Tree.leaf (.int 2), .leaf (.str [120, 122, 121]), .leaf (.int 3)] then 0 else 1) = 0 by decide +kernel]
+  simp only [edScript, h3]
+  exact Script.eq_of_beq _ _ (by decide +kernel)
+
+set_option maxRecDepth 4000 in
+/-- `pScript` is what the model computes for the pair (all three levels) -/
+theorem pScript_is_model_output : edits {amk := false} pOrc [] [] pF pT = pScript := by
+  simp [pF, pT, pOrc, pScript, edits_dict_dict, pList_script, edits_leaf, kvTbl, subKV, findKV, Tree.eq, eqL, Scalar.eq,
+    msScript, kvEq, findKey, List.range_succ, kvpScript, Oracle.lookup, sanitize, sortPairs, insertPair, mkCompound,
+    List.filter_cons, List.getD_eq_getElem?_getD, mkMatch, mkRemove, mkInsert, Script.relabel, List.zipIdx, leafEdits, strEdits,
+    leafLeaf, kvSize, Tree.size, sizeL, Scalar.pyStr, Script.kind, Script.cost, Script.subs, Script.fi, Script.ti, sumCosts]
+end
+
+/-- `project_from` / `project_to` on the model's own script for this pair: the first document with its pairs in
+    script order (identity match c first), the second with the to-key `d` of the pair b↦d -/
+example : projectFrom (.tree pF) (.tree pT) (edits {amk := false} pOrc [] [] pF pT) = some (.tree (.dict
+    [([99], .leaf (.int 3)), ([97], .list [.leaf (.int 1), .leaf (.int 2), .leaf (.str [120, 121])]),
+      ([98], .leaf (.int 2))])) := by rw [pScript_is_model_output]; rfl
+example : projectTo (.tree pF) (.tree pT) (edits {amk := false} pOrc [] [] pF pT) = some (.tree (.dict
+    [([99], .leaf (.int 3)), ([97], .list [.leaf (.int 2), .leaf (.str [120, 122, 121]), .leaf (.int 3)]),
+      ([100], .leaf (.int 2))])) := by rw [pScript_is_model_output]; rfl
+
 
 /-- the script accounts for both documents at all three levels (the hypothesis of `project_of_accounts`) -/
 example : Accounts (.tree pF) (.tree pT) pScript := by
